@@ -54,6 +54,27 @@ pub struct Knobs {
     /// forge the answer to the k-th request of the step
     pub forge: Option<Forge>,
     pub req_in_step: usize,
+    /// storage fault injection (indices count write operations since the fault spec was installed)
+    pub fault: Fault,
+    pub st_ops: usize,
+    /// wall-clock manipulations offered as a choice before every clock read (entry 0 = none)
+    pub clock_menu: Vec<WallJump>,
+}
+
+#[derive(Clone, Debug, Default, PartialEq)]
+pub struct Fault {
+    pub idx: Vec<usize>,
+    /// 0 = every set, 1 = every remove, 2 = every commit
+    pub all_kind: Option<u8>,
+    pub key: Option<String>,
+    pub all: bool,
+}
+
+#[derive(Clone, Copy, Debug, PartialEq)]
+pub enum WallJump {
+    None,
+    Add(i128),
+    Set(i128),
 }
 
 /// An unauthenticated answer: forgery kind x payload (see `forged_answer`).
@@ -177,6 +198,9 @@ impl Default for Knobs {
             clock_jump: None,
             forge: None,
             req_in_step: 0,
+            fault: Fault::default(),
+            st_ops: 0,
+            clock_menu: vec![],
         }
     }
 }
@@ -312,8 +336,39 @@ impl Director for HistDirector {
     fn reboot_allowed(&mut self, _w: &mut Inner, _o: Src) -> bool {
         self.knobs.lock().unwrap().reboot_allowed
     }
+    fn storage_fault(&mut self, _w: &mut Inner, op: &StOp) -> bool {
+        let mut k = self.knobs.lock().unwrap();
+        let i = k.st_ops;
+        k.st_ops += 1;
+        let f = &k.fault;
+        if f.all || f.idx.contains(&i) {
+            return true;
+        }
+        let (kind, key) = match op {
+            StOp::Set(k, _) => (0u8, Some(k.as_str())),
+            StOp::Remove(k) => (1, Some(k.as_str())),
+            StOp::Commit => (2, None),
+            StOp::Get(_) => return false,
+        };
+        if f.all_kind == Some(kind) {
+            return true;
+        }
+        if let (Some(fk), Some(k2)) = (&f.key, key) {
+            if fk == k2 {
+                return true;
+            }
+        }
+        false
+    }
     fn before_clock_read(&mut self, w: &mut Inner) {
         let mut k = self.knobs.lock().unwrap();
+        if !k.clock_menu.is_empty() {
+            match k.clock_menu[w.choose("clock.jump", k.clock_menu.len())] {
+                WallJump::None => {}
+                WallJump::Add(d) => w.clock.wall += d,
+                WallJump::Set(v) => w.clock.wall = v,
+            }
+        }
         if let Some((n, dm, dw)) = k.clock_jump {
             if w.clock.reads + 1 == n {
                 w.clock.mono += dm;
